@@ -209,8 +209,8 @@ def multi_database(cases):
                "db1.open(at=point); the reference is followed"}
         if x.v != 1 or 'later' in hc.root():
             return fail(inp, 'x.v == 1 (the state at the point)', 'x.v == %r' % x.v, cases)
-        if x._p_jar.before != hc.before:
-            return fail(inp, 'partner connection reads at the same bound %r' % hc.before,
+        if x._p_jar.before is None or x._p_jar.before > hc.before:
+            return fail(inp, 'partner connection reads at a bound not later than %r' % hc.before,
                         'partner bound %r' % x._p_jar.before, cases)
         x.v = 3
         cases += 1
@@ -219,6 +219,32 @@ def multi_database(cases):
             return fail(inp, 'commit through the historical connection (partner) refused', 'commit accepted', cases)
         except ReadOnlyHistoryError:
             htm.abort()
+        hc.close()
+        # the partner database has not been written for a while: every later point of db '1' is still a valid past
+        # point, and the partner shows its newest state
+        for k in range(2):
+            time.sleep(0.002)
+            c1.root()['only_in_1_%d' % k] = P(k)
+            tm.commit()
+        point2 = db1.lastTransaction()
+        cases += 1
+        inp = {'scenario': "two databases; the last two commits touched only db '1'; db1.open(at=its newest "
+               "transaction); the reference into db '2' is followed"}
+        htm = transaction.TransactionManager()
+        try:
+            hc = db1.open(htm, at=point2)
+            got = hc.root()['ref'].v
+        except Exception as e:  # noqa
+            return fail(inp, 'x.v == 2 (the state of db 2 at that moment)', '%s: %s' % (type(e).__name__, e), cases)
+        if got != 2:
+            return fail(inp, 'x.v == 2', 'x.v == %r' % got, cases)
+        # ... and stays so while db '2' is written afterwards
+        c2.root()['x'].v = 9
+        tm.commit()
+        hc.cacheMinimize()
+        cases += 1
+        if hc.root()['ref'].v != 2:
+            return fail(dict(inp, then="db '2' committed x.v = 9"), 'x.v == 2', 'x.v == %r' % hc.root()['ref'].v, cases)
         hc.close()
         c1.close()
     finally:
